@@ -45,8 +45,10 @@ def gen(rng, tier, i):
         lk = rng.choice(["http", "http", "https"])
     if oc in ("bind",) and lk in ("socks4a",):
         lk = "socks4"
-    if oc in ("badcmd", "udp-assoc-timeout", "udp-on-tcp-only") and lk in ("socks4", "socks4a", "socks5auth"):
+    if oc in ("udp-assoc-timeout", "udp-on-tcp-only") and lk in ("socks4", "socks4a", "socks5auth"):
         lk = "socks5"
+    if oc == "badcmd" and lk in ("socks4a", "socks5auth"):
+        lk = rng.choice(["socks5", "socks4"])
     if oc == "udp-on-tcp-only" and not (lk.startswith("socks5") or lk in ("http", "https", "quic")):
         lk = "socks5"
     cname, chaos = G.pick_chaos(rng, weights=(("none", 2), ("mild", 3), ("heavy", 2)))
@@ -155,7 +157,7 @@ def gen(rng, tier, i):
             expect = "ok"
             srv["default_ops"] = sc.upstream_handshake(ci) + tail
         elif oc == "up-socks4-no":
-            srv["default_ops"] = [op("recv_socks4_request", label="upreq"), send(bytes([0, rng.choice([91, 92, 93]), 0, 0, 0, 0, 0, 0]))] + tail
+            srv["default_ops"] = [op("recv_socks4_request", label="upreq"), send(bytes([0, rng.choice([91, 92, 93, 91, 0, 1, 89, 255]), 0, 0, 0, 0, 0, 0]))] + tail   # only 90 grants
     # client
     variant = {"socks5": "5", "socks5p": "5p", "socks4": "4", "socks4a": "4", "socks5auth": rng.choice(["5", "5p"])}.get(lk)
     creds = None
@@ -172,13 +174,18 @@ def gen(rng, tier, i):
         bad = rng.choice([b"GET http://%s/ HTTP/1.1\r\nHost: %s\r\n\r\n" % (tgt.encode(), tgt.encode()),
                           b"POST / HTTP/1.1\r\nHost: x\r\nContent-Length: 0\r\n\r\n",
                           rc.http_connect(tgt, [("Host", tgt), ("Proxy-Protocol", rng.choice(["sctp", "icmp", "tcp6"]))]),
-                          b"OPTIONS * HTTP/1.1\r\nHost: x\r\n\r\n"])
+                          b"OPTIONS * HTTP/1.1\r\nHost: x\r\n\r\n",
+                          # CONNECT whose authority is not host:port, or whose UDP channel this listener cannot provide
+                          b"CONNECT origin.sim HTTP/1.1\r\nHost: origin.sim\r\n\r\n",
+                          b"CONNECT %s:notaport HTTP/1.1\r\nHost: x\r\n\r\n" % oip.encode(),
+                          b"CONNECT %s:99999 HTTP/1.1\r\nHost: x\r\n\r\n" % oip.encode(),
+                          rc.http_connect(tgt, [("Host", tgt), ("Proxy-Protocol", "udp"), ("Proxy-Channel", rng.choice(["datagram", "quic-datagrams", "x"]))])])
         for o in hs:
             if o["op"] == "send":
                 o["hex"] = bad.hex()
     if oc in ("bind", "badcmd"):
         # rewrite the command byte of the request
-        cmd = 2 if oc == "bind" else rng.choice([0, 4, 9, 255])
+        cmd = 2 if oc == "bind" else rng.choice([0, 4, 9, 255] + ([3] if lk == "socks4" else []))   # SOCKS4 has no command 3
         last_send = [o for o in hs if o["op"] == "send"][-1]
         for o in [last_send]:
             if o["op"] == "send":
